@@ -378,6 +378,15 @@ def load_known():
     return json.load(open(p)).get("findings", [])
 
 
+def wiring_pre_build(ctx):
+    """regenerate lean/PyomaVerif/Generated/Wiring.lean (call-site wiring of the algorithm classes) from the tested tree"""
+    import translate_wiring
+
+    ok, msg, summary = translate_wiring.write(REPO, LEAN)
+    ctx.notes.append(f"wiring translator: {msg} {summary}")
+    return ok, msg
+
+
 # ----------------------------------------------------------------------------- runner
 def run_check(prop, mod, argv):
     """Generic check runner.  `mod` provides:
